@@ -8,9 +8,16 @@ R-C08a  export post-processing only weakens and skips the interface: in ir_postp
 R-C08b  paired metadata writes: an assignment to `value.const_value` of a value not constructed in the
         same function is followed on every path by an assignment to the same value's `.type`
         (double promotion keeps the declared element type in sync with the payload)
-Not decided here: whether re-meant nodes are refreshed (R-C08c of the design): the registered propagate
-passes re-derive the shapes of most element-wise ops afterwards, so a missing refresh inside one rewrite step
-is not statically a wrong final annotation; the observation-guard side is C02 R-C02a.
+R-C08c  refresh order: a loop that re-derives node annotations from the nodes' *current inputs*
+        (`_refresh_elementwise_output_shape`, `_copy_shape_dtype`, `_copy_shape_only` applied to the loop
+        variable) must visit producers before consumers.  The iterated collection is classified by the
+        provenance of its elements: GRAPH (list(graph) / the `nodes` sequence, possibly filtered), FORWARD
+        (a list appended while following `_consumer_nodes`, or the reversal of a BACKWARD list), BACKWARD
+        (appended while following `_producer_node` / `_first_input`), UNORDERED (a set).  BACKWARD and
+        UNORDERED are violations: a consumer refreshed first copies its producer's stale annotation.
+Not decided here: whether every re-meant node is refreshed at all: the registered propagate passes re-derive
+the shapes of most element-wise ops afterwards, so a *missing* refresh inside one rewrite step is not statically
+a wrong final annotation; the observation-guard side is C02 R-C02a.
 """
 from __future__ import annotations
 
@@ -31,6 +38,239 @@ def _parents(n: ast.AST):
     while cur is not None:
         yield cur
         cur = getattr(cur, "parent", None)
+
+
+OPT = "jax2onnx/converter/ir_optimizations.py"
+REFRESHERS = {"_refresh_elementwise_output_shape", "_copy_shape_dtype", "_copy_shape_only"}
+FWD_CALLS = {"_consumer_nodes", "_consumers", "consumers", "uses"}
+BWD_CALLS = {"_producer_node", "_first_input", "producer", "_node_inputs"}
+FLIP = {"FORWARD": "BACKWARD", "BACKWARD": "FORWARD"}
+
+
+def _ann_is_set(ann: Optional[ast.AST]) -> bool:
+    if ann is None:
+        return False
+    d = dotted(ann.value if isinstance(ann, ast.Subscript) else ann) or ""
+    return d.split(".")[-1] in ("Set", "set", "FrozenSet", "frozenset", "AbstractSet", "MutableSet")
+
+
+def _ann_tuple_elem(ann: Optional[ast.AST], i: int) -> Optional[ast.AST]:
+    """Optional[Tuple[a, b, ...]] / Tuple[a, b, ...] -> element i."""
+    cur = ann
+    for _ in range(3):
+        if isinstance(cur, ast.Subscript):
+            d = (dotted(cur.value) or "").split(".")[-1]
+            if d == "Optional":
+                cur = cur.slice
+                continue
+            if d in ("Tuple", "tuple") and isinstance(cur.slice, ast.Tuple) and i < len(cur.slice.elts):
+                return cur.slice.elts[i]
+        break
+    return None
+
+
+def _elem_provenance_calls(fn: ast.AST, du, name: str, init_stmt: Optional[ast.AST] = None) -> Set[str]:
+    """Last names of the calls the elements stored into list `name` are computed from (transitively).
+    Only definitions inside the loop body that (re)initialises the list are followed: the optimizer's long
+    functions reuse cursor names (`cur`, `prev`, `consumers`) across unrelated rewrite steps."""
+    scope: ast.AST = fn
+    if init_stmt is not None:
+        for p in _parents(init_stmt):
+            if p is fn:
+                break
+            if isinstance(p, (ast.For, ast.While)):
+                scope = p
+                break
+    in_scope = {id(x) for x in ast.walk(scope)}
+    stored: Set[str] = set()
+    for c in walk_no_nested(fn):
+        if id(c) not in in_scope:
+            continue
+        if isinstance(c, ast.Call) and isinstance(c.func, ast.Attribute) and c.func.attr in ("append", "add", "insert", "extend") and isinstance(c.func.value, ast.Name) and c.func.value.id == name and c.args:
+            stored |= names_in(c.args[-1])
+    calls: Set[str] = set()
+    seen: Set[str] = set()
+    todo = list(stored)
+    while todo:
+        nm = todo.pop()
+        if nm in seen or nm == name:
+            continue
+        seen.add(nm)
+        for d in du.defs.get(nm, []):
+            v = d.value
+            if v is None or id(d.stmt) not in in_scope or d.stmt is scope:
+                continue
+            for x in ast.walk(v):
+                if isinstance(x, ast.Call):
+                    calls.add((call_name(x) or "").split(".")[-1])
+            todo += list(names_in(v))
+        # elements pushed into a work list this name is popped from
+        for c in walk_no_nested(fn):
+            if id(c) not in in_scope:
+                continue
+            if isinstance(c, ast.Call) and isinstance(c.func, ast.Attribute) and c.func.attr in ("append", "add", "insert", "extend") and isinstance(c.func.value, ast.Name) and c.func.value.id == nm and c.args:
+                todo += list(names_in(c.args[-1]))
+    return calls
+
+
+def order_of(idx: Index, fi: FuncInfo, e: ast.AST, depth: int = 0) -> tuple:
+    """-> (GRAPH | FORWARD | BACKWARD | UNORDERED | UNKNOWN, why)"""
+    if depth > 4:
+        return "UNKNOWN", "depth"
+    du = defuse(fi.node)
+    if isinstance(e, ast.Call):
+        cn = (call_name(e) or "").split(".")[-1]
+        if cn in ("list", "tuple", "cast") and e.args:
+            inner = e.args[-1]
+            if isinstance(inner, ast.Name) and inner.id in ("graph", "g", "subgraph"):
+                return "GRAPH", "list(graph)"
+            return order_of(idx, fi, inner, depth + 1)
+        if cn == "reversed" and e.args:
+            k, w = order_of(idx, fi, e.args[0], depth + 1)
+            return FLIP.get(k, k), f"reversed({w})"
+        if cn in ("set", "frozenset"):
+            return "UNORDERED", "set(…)"
+        if cn == "sorted":
+            return "UNKNOWN", "sorted(…) by an unknown key"
+        return "UNKNOWN", f"result of {cn}()"
+    if isinstance(e, (ast.Set, ast.SetComp)):
+        return "UNORDERED", "set display"
+    if isinstance(e, ast.Subscript) and isinstance(e.slice, ast.Slice) and e.slice.step is not None and isinstance(e.slice.step, ast.UnaryOp):
+        k, w = order_of(idx, fi, e.value, depth + 1)
+        return FLIP.get(k, k), f"{w}[::-1]"
+    if isinstance(e, ast.ListComp) and len(e.generators) == 1:
+        return order_of(idx, fi, e.generators[0].iter, depth + 1)
+    if isinstance(e, ast.Name):
+        defs = du.defs.get(e.id, [])
+        if not defs:
+            return "UNKNOWN", f"free name {e.id}"
+        kinds = []
+        for d in defs:
+            ann = d.stmt.annotation if isinstance(d.stmt, ast.AnnAssign) else None
+            if d.kind == "param":
+                a = fi.node.args  # type: ignore[attr-defined]
+                pa = next((x for x in a.posonlyargs + a.args + a.kwonlyargs if x.arg == e.id), None)
+                if pa is not None and _ann_is_set(pa.annotation):
+                    kinds.append(("UNORDERED", f"parameter {e.id}: Set"))
+                elif e.id in ("nodes", "all_nodes", "live_nodes"):
+                    kinds.append(("GRAPH", f"parameter {e.id} (graph node sequence)"))
+                else:
+                    kinds.append(("UNKNOWN", f"parameter {e.id}"))
+                continue
+            if _ann_is_set(ann):
+                kinds.append(("UNORDERED", f"`{e.id}` is declared a Set"))
+                continue
+            v = d.value
+            if d.kind == "unpack" and d.index is not None and v is not None:
+                # tuple-unpacked from a helper's result: classify the returned element in the helper
+                src_call = v
+                if isinstance(v, ast.Name):
+                    cands = [x.value for x in du.defs.get(v.id, []) if isinstance(x.value, ast.Call)]
+                    src_call = cands[0] if len(cands) == 1 else None
+                if isinstance(src_call, ast.Call):
+                    callee = idx.resolve_func(fi.module, call_name(src_call) or "", cls=fi.cls, scope=fi)
+                    if callee is not None:
+                        el = _ann_tuple_elem(callee.node.returns, d.index)  # type: ignore[attr-defined]
+                        if _ann_is_set(el):
+                            kinds.append(("UNORDERED", f"element {d.index} of {callee.qualname}() is a Set"))
+                            continue
+                        rets = [r.value for r in walk_no_nested(callee.node) if isinstance(r, ast.Return) and isinstance(r.value, ast.Tuple) and d.index < len(r.value.elts)]
+                        sub = {order_of(idx, callee, r.elts[d.index], depth + 1) for r in rets}
+                        if len(sub) == 1:
+                            k, w = next(iter(sub))
+                            kinds.append((k, f"{callee.qualname}() → {w}"))
+                            continue
+                kinds.append(("UNKNOWN", f"unpacked {e.id}"))
+                continue
+            if d.kind in ("assign", "walrus") and v is not None:
+                if isinstance(v, ast.List) and not v.elts or (isinstance(v, ast.Call) and (call_name(v) or "") == "list" and not v.args):
+                    calls = _elem_provenance_calls(fi.node, du, e.id, d.stmt)
+                    f, b = calls & FWD_CALLS, calls & (BWD_CALLS - {"_node_inputs"})
+                    if f and not b:
+                        kinds.append(("FORWARD", f"`{e.id}` is appended while following {sorted(f)[0]}()"))
+                    elif b and not f:
+                        kinds.append(("BACKWARD", f"`{e.id}` is appended while following {sorted(b)[0]}()"))
+                    else:
+                        kinds.append(("UNKNOWN", f"`{e.id}`: walk direction not resolved ({sorted(calls)[:4]})"))
+                    continue
+                kinds.append(order_of(idx, fi, v, depth + 1))
+                continue
+            if d.kind == "setitem":
+                continue
+            kinds.append(("UNKNOWN", f"{d.kind} definition of {e.id}"))
+        ks = {k for k, _ in kinds}
+        if len(ks) == 1:
+            return kinds[0]
+        for bad in ("UNORDERED", "BACKWARD"):
+            if bad in ks and ks <= {bad, "UNKNOWN"}:
+                return next(k for k in kinds if k[0] == bad)
+        return "UNKNOWN", f"`{e.id}` has definitions of different order kinds {sorted(ks)}"
+    return "UNKNOWN", type(e).__name__
+
+
+def rule_c(res: Results, idx: Index) -> None:
+    n = 0
+    for rel in (OPT, PP):
+        m = idx.module(rel)
+        for fi in m.funcs.values():
+            for c in walk_no_nested(fi.node):
+                if not (isinstance(c, ast.Call) and (call_name(c) or "") in REFRESHERS and c.args):
+                    continue
+                # the innermost enclosing for-loop whose variable the refreshed node derives from
+                arg_names = names_in(c.args[0])
+                du = defuse(fi.node)
+                loop = None
+                for p in _parents(c):
+                    if p is fi.node:
+                        break
+                    if isinstance(p, ast.For):
+                        tn = names_in(p.target)
+                        if tn & du.closure(arg_names):
+                            loop = p
+                            break
+                if loop is None:
+                    continue
+                if (call_name(c) or "") != "_refresh_elementwise_output_shape":
+                    # a copy from the node's own input to its own output
+                    if len(c.args) < 2 or not (names_in(c.args[1]) & du.closure(names_in(c.args[1])) and (du.closure(names_in(c.args[1])) & names_in(loop.target))):
+                        continue
+                n += 1
+                kind, why = order_of(idx, fi, loop.iter)
+                key = f"{rel}::{fi.qualname}::refresh-order::{src(loop.iter, 40)}"
+                site = f"{rel}:{c.lineno}"
+                if kind in ("GRAPH", "FORWARD"):
+                    res.ok("R-C08c", site, key, f"{kind}: {why}", fi.qualname)
+                elif kind in ("BACKWARD", "UNORDERED"):
+                    res.violation("R-C08c", site, key, f"annotations are re-derived from current inputs while iterating `{src(loop.iter, 40)}` in {kind} order ({why}): a consumer visited before its producer copies the producer's stale shape, so the exported annotation contradicts run time", fi.qualname)
+                else:
+                    res.unresolved("R-C08c", site, key, f"iteration order not resolved: {why}", fi.qualname)
+    res.analysed["refresh_loops"] = n
+    import textwrap
+    from ..index import Module as Mod
+    cm = Mod("<control>", "<control>", "control_c08c", textwrap.dedent("""
+        from typing import Set, List
+        def fold(graph, nodes, start):
+            chain: List[object] = []
+            v = _first_input(start)
+            while v is not None:
+                p = _producer_node(nodes, v)
+                chain.append(p)
+                v = _first_input(p)
+            group: Set[object] = set(chain)
+            fwd = list(reversed(chain))
+            for node in chain:
+                _refresh_elementwise_output_shape(node)
+            for node in group:
+                _refresh_elementwise_output_shape(node)
+            for node in fwd:
+                _refresh_elementwise_output_shape(node)
+            for node in nodes:
+                if node in group:
+                    _refresh_elementwise_output_shape(node)
+    """))
+    f = cm.funcs["fold"]
+    got = [order_of(idx, f, l.iter)[0] for l in ast.walk(f.node) if isinstance(l, ast.For)]
+    res.control("R-C08c", "backward list, set, reversed list, graph sequence are classified BACKWARD, UNORDERED, FORWARD, GRAPH", got == ["BACKWARD", "UNORDERED", "FORWARD", "GRAPH"], str(got))
 
 
 def run(res: Results, idx: Index, tier: str) -> None:
@@ -126,6 +366,9 @@ def run(res: Results, idx: Index, tier: str) -> None:
     key = f"{PP}::_process_graph::recurses"
     rec = [c for c in walk_no_nested(pg.node) if isinstance(c, ast.Call) and (call_name(c) or "") == "_process_graph"]
     res.add("R-C08a", "OK" if rec else "UNRESOLVED", f"{PP}:{pg.node.lineno}", key, "control-flow bodies are processed recursively" if rec else "no recursive call found", pg.qualname)
+
+    res.rule("R-C08c", "annotation refresh loops visit producers before consumers", floor=5)
+    rule_c(res, idx)
 
     # ---- R-C08b
     n_cv = 0
